@@ -1,12 +1,14 @@
 """C18: report durations, deltas and size changes are computed and formatted correctly."""
 import os
 import re
+import shutil
 from decimal import Decimal, ROUND_HALF_EVEN
 
 from .. import core
 from ..core import hexb
 from .. import reportgen
 from ..shellenv import ShellEnv
+from ..canvasrun import CanvasRunner
 
 MODULES = ["Robsd.Props.C18"]
 GENS = ["StepFields", "Consts"]
@@ -127,6 +129,41 @@ def run(ctx):
                 if hms(int(outs.decode().strip())) != got.split(" ")[0] or int(outs.decode().strip()) != tot:
                     ctx.violation("shell duration_total prints %s, the report shows %s" % (outs.decode().strip(), got), dict(mode=mode, rows=rows))
             kinds["shell"] = kinds.get("shell", 0) + 1
+    # ---- which invocation the recorded deltas are taken against: real canvas runs next to a crafted
+    # previous invocation, fresh and then resumed after it had finished (only `end` is redone)
+    cr = CanvasRunner(ctx, ctx.build_repo("plain"))
+    for t in range(ctx.n(2, 12)):
+        root = os.path.join(ctx.scratch, "c18prev%d" % t)
+        shutil.rmtree(root, ignore_errors=True)
+        prevd = os.path.join(root, "2001-01-0%d.1" % (1 + t % 9))
+        os.makedirs(os.path.join(prevd, "tmp"))
+        pd = dict(one=rng.choice([100, 200, 7]), two=rng.choice([50, 3]), end=rng.choice([300, 1000, 61]))
+        pexit_two = rng.choice([0, 0, 1])       # a failed step of the previous invocation is not a reference
+        open(os.path.join(prevd, "step.csv"), "w").write(
+            "step,name,exit,duration,delta,log,user,time,skip\n1,one,0,%d,0,001-one.log,root,1,0\n2,two,%d,%d,0,002-two.log,root,2,0\n" % (pd["one"], pexit_two, pd["two"]) +
+            ("3,end,0,%d,0,,root,5,0\n" % pd["end"] if pexit_two == 0 else ""))
+        cfg = dict(steps=[("one", False, 0, 0), ("two", False, 0, 0)], skip=[], cmdline_skip=[], ncpu=1)
+        res = cr.run(cfg, root=root, keep_root=True, hook=False)
+        rows = {r["name"]: r for r in res["rows"]}
+        info = dict(previous=open(os.path.join(prevd, "step.csv")).read(), rows=res["rows"], rc=res["rc"], stderr=res["stderr"][-300:])
+        kinds["delta-real-run"] = kinds.get("delta-real-run", 0) + 1
+
+        def expect(nm, row):
+            ref = pd[nm] if (nm != "two" or pexit_two == 0) and (nm != "end" or pexit_two == 0) else None
+            return 0 if ref is None else row["duration"] - ref
+
+        bad = [(nm, rows[nm]["delta"], expect(nm, rows[nm])) for nm in ("one", "two", "end") if nm in rows and rows[nm]["delta"] != expect(nm, rows[nm])]
+        if res["rc"] != 0 or "end" not in rows or bad:
+            ctx.violation("recorded delta of %s is not duration minus the previous invocation's duration (step, recorded, expected): %s" % ([b[0] for b in bad], bad), info)
+            continue
+        # resume the finished invocation: `end` is redone, its delta is still against the previous invocation
+        res2 = cr.run(cfg, root=root, keep_root=True, hook=False, resume_dir=res["builddir"])
+        rows2 = {r["name"]: r for r in res2["rows"]}
+        if res2["rc"] != 0 or "end" not in rows2 or rows2["end"]["delta"] != expect("end", rows2["end"]):
+            ctx.violation("after resuming a finished invocation the total's delta is %s, duration %s, previous invocation's total %s" % (
+                rows2.get("end", {}).get("delta"), rows2.get("end", {}).get("duration"), pd["end"] if pexit_two == 0 else None),
+                dict(info, rows_after_resume=res2["rows"], rc2=res2["rc"]))
+        kinds["delta-resumed-run"] = kinds.get("delta-resumed-run", 0) + 1
     ans = ctx.model(reqs) if reqs else []
     for q, a, (want, c) in zip(reqs, ans, obs):
         if a != want:
